@@ -69,6 +69,7 @@ type c01Case struct {
 	Ops    []c01Op `json:"ops,omitempty"`
 	Corpus string  `json:"corpus,omitempty"` // file name under seqio/testdata
 	Year   int     `json:"year,omitempty"`   // date mode: all days of this year
+	Input  []byte  `json:"input,omitempty"`  // fuzz mode: raw bytes offered to the reader
 }
 
 func (r gbRec) residues() []byte {
@@ -332,6 +333,8 @@ func c01Check(c c01Case) *Violation {
 	resetQualifierRegistries()
 	defer resetQualifierRegistries()
 	switch c.Mode {
+	case "fuzz":
+		return c01Fuzz(c.Input)
 	case "record", "stream":
 		recs := make([]seqio.GenBank, len(c.Recs))
 		for i, r := range c.Recs {
@@ -779,7 +782,59 @@ func TestC01(t *testing.T) {
 	rapidPart(t, c01Prop, st, "rapid", pick(3000, 25000), c01Gen)
 }
 
-// FuzzC01 (thorough): mutated valid records that still parse must be fixed points of write∘read.
+// c01Fuzz: a byte string that gts reads AND whose re-written form gts reads again lies in the writable domain;
+// from there on write∘read must be a fixed point and the second-generation output must be accepted.
+func c01Fuzz(in []byte) *Violation {
+	recs, errText, pi := readGenBank(string(in))
+	if pi != nil || errText != "" || len(recs) == 0 {
+		return nil // totality is C07's concern
+	}
+	seqs := make([]gts.Sequence, len(recs))
+	for i, r := range recs {
+		seqs[i] = r
+	}
+	s1, v := writeGenBank(seqs)
+	if v != nil {
+		return nil // writer limits on foreign input (over-wide keys) are outside the writable domain
+	}
+	back, errText, pi := readGenBank(s1)
+	if pi != nil {
+		return panicViolation("reading the writer's output", pi)
+	}
+	if errText != "" || len(back) != len(recs) {
+		return nil // not every foreign record is in the writable domain (e.g. wrapped organism names)
+	}
+	seqs2 := make([]gts.Sequence, len(back))
+	for i, r := range back {
+		seqs2[i] = r
+	}
+	s2, v := writeGenBank(seqs2)
+	if v != nil {
+		return v
+	}
+	back2, errText, pi := readGenBank(s2)
+	if pi != nil {
+		return panicViolation("reading the second-generation output", pi)
+	}
+	if errText != "" || len(back2) != len(back) {
+		return viol("closure", "second-generation output is rejected: %s\n%s", errText, clipStr(s2, 800))
+	}
+	seqs3 := make([]gts.Sequence, len(back2))
+	for i, r := range back2 {
+		seqs3[i] = r
+	}
+	s3, v := writeGenBank(seqs3)
+	if v != nil {
+		return v
+	}
+	if s3 != s2 {
+		d := firstDiff(s2, s3)
+		return viol("fixed-point", "write(read(x)) is not a fixed point at byte %d: %q vs %q", d, clipStr(s2[maxInt(0, d-40):], 120), clipStr(s3[maxInt(0, d-40):], 120))
+	}
+	return nil
+}
+
+// FuzzC01 (thorough): native coverage-guided fuzzing over mutated valid records.
 func FuzzC01(f *testing.F) {
 	for _, name := range []string{"NC_001422_part.gb", "pBAT5.txt"} {
 		if data, err := os.ReadFile(filepath.Join(corpusDir(), name)); err == nil {
@@ -794,42 +849,10 @@ func FuzzC01(f *testing.F) {
 		if len(in) > 1<<16 {
 			return
 		}
-		resetQualifierRegistries()
-		recs, errText, pi := readGenBank(string(in))
-		if pi != nil || errText != "" || len(recs) == 0 {
-			return // C07's concern
-		}
-		seqs := make([]gts.Sequence, len(recs))
-		for i, r := range recs {
-			seqs[i] = r
-		}
-		var s1 string
-		var v *Violation
-		if pi := guard(func() { s1, v = writeGenBank(seqs) }); pi != nil || v != nil {
-			return // writer limits on foreign input (wide fields) are outside the writable domain
-		}
-		back, errText, pi := readGenBank(s1)
-		if pi != nil || errText != "" || len(back) != len(recs) {
-			return // not every parsed foreign record is in the writable domain; the fixed point is claimed for those that are
-		}
-		seqs2 := make([]gts.Sequence, len(back))
-		for i, r := range back {
-			seqs2[i] = r
-		}
-		s2, v := writeGenBank(seqs2)
-		if v != nil {
-			return
-		}
-		back2, errText, pi := readGenBank(s2)
-		if pi != nil || errText != "" || len(back2) != len(back) {
-			t.Fatalf("VIOLATION C01/fuzz [closure]: second generation output is rejected: %s", errText)
-		}
-		seqs3 := make([]gts.Sequence, len(back2))
-		for i, r := range back2 {
-			seqs3[i] = r
-		}
-		if s3, _ := writeGenBank(seqs3); s3 != s2 {
-			t.Fatalf("VIOLATION C01/fuzz [fixed-point]: write(read(x)) is not a fixed point at byte %d", firstDiff(s2, s3))
+		c := c01Case{Mode: "fuzz", Input: append([]byte(nil), in...)}
+		if v := c01Check(c); v != nil {
+			writeFail("C01", "fuzz", mustJSON(c), v)
+			t.Fatalf("VIOLATION C01/fuzz [%s]: %s", v.Kind, v.Msg)
 		}
 	})
 }
